@@ -1187,31 +1187,65 @@ func (e *fnEnc) resolveSourceVar(name string, li *loopInfo, st *state) (tval, bo
 			}
 		}
 	}
-	// 3. debug refs: a unique defined value bound to a variable of that name
-	var found ssa.Value
-	n := 0
+	// 3. the value of the source variable at the target point: among the values bound to a
+	// variable of that name (debug refs, and phis named after it) whose definition
+	// dominates the target block, the most recent one (deepest in the dominator tree).
+	var target *ssa.BasicBlock
+	if li != nil {
+		target = li.head
+	} else {
+		target = e.curBlock
+	}
+	cands := map[ssa.Value]bool{}
 	for _, b := range e.fn.Blocks {
 		for _, ins := range b.Instrs {
-			if d, ok := ins.(*ssa.DebugRef); ok && !d.IsAddr {
+			switch d := ins.(type) {
+			case *ssa.DebugRef:
+				if d.IsAddr {
+					continue
+				}
 				if obj := d.Object(); obj != nil && obj.Name() == name {
 					if _, ok := obj.(*types.Var); ok {
-						if _, defined := e.vals[d.X]; defined || isConstLike(d.X) {
-							if found != d.X {
-								found = d.X
-								n++
-							}
-						}
+						cands[d.X] = true
 					}
+				}
+			case *ssa.Phi:
+				if d.Comment == name {
+					cands[d] = true
 				}
 			}
 		}
 	}
-	if n == 1 {
-		return tval{term: e.val(found), typ: found.Type()}, true
+	var best ssa.Value
+	bestDepth := -1
+	ambiguous := false
+	for v := range cands {
+		if _, defined := e.vals[v]; !defined && !isConstLike(v) {
+			continue
+		}
+		depth := 0
+		if ins, ok := v.(ssa.Instruction); ok && ins.Block() != nil {
+			if target != nil && !(ins.Block() == target || ins.Block().Dominates(target)) {
+				continue
+			}
+			for b := ins.Block(); b != nil; b = b.Idom() {
+				depth++
+			}
+			// later in the same block wins
+			for i, x := range ins.Block().Instrs {
+				if x == ins {
+					depth = depth*10000 + i
+				}
+			}
+		}
+		if depth > bestDepth {
+			best, bestDepth, ambiguous = v, depth, false
+		} else if depth == bestDepth && v != best {
+			ambiguous = true
+		}
 	}
-	if n > 1 {
-		// ambiguous: prefer a phi at the loop head? otherwise fail loudly
-		return tval{}, false
+	if best != nil && !ambiguous {
+		return tval{term: e.val(best), typ: best.Type()}, true
 	}
 	return tval{}, false
 }
